@@ -322,6 +322,106 @@ fn exhaustive(log: &mut Log, st: &mut Stats) {
     st.bump("exhaustive_done");
 }
 
+/// Re-execute a recorded op file (corpus entry or the segment of a replay file) on the real
+/// code. Actor pids differ from run to run, so recorded pids are remapped through the
+/// `open` ops; the op lines written to the log carry the NEW pids.
+async fn replay_ops(log: &mut Log, st: &mut Stats, path: &str) {
+    let text = std::fs::read_to_string(path).unwrap_or_default();
+    let mut probe: Option<NodeStateProbe> = None;
+    let mut map: std::collections::HashMap<u64, u64> = Default::default();
+    let m = |map: &std::collections::HashMap<u64, u64>, p: &str| -> u64 {
+        let v: u64 = p.parse().unwrap_or(0);
+        *map.get(&v).unwrap_or(&v)
+    };
+    for line in text.lines() {
+        let w: Vec<&str> = line.split_whitespace().collect();
+        st.bump("replayed_ops");
+        match w.as_slice() {
+            ["elect", this, peer, cs] => {
+                let c: Vec<(u64, bool, u64)> = if *cs == "-" {
+                    vec![]
+                } else {
+                    cs.split(',')
+                        .filter_map(|x| {
+                            let f: Vec<&str> = x.split(':').collect();
+                            Some((f.first()?.parse().ok()?, f.get(1)? == &"true", f.get(2)?.parse().ok()?))
+                        })
+                        .collect()
+                };
+                do_elect(log, st, this, peer, &c);
+            }
+            ["world", a, b, cs] => {
+                let c: Vec<(bool, u64, u64, u64)> = cs
+                    .split(',')
+                    .filter_map(|x| {
+                        let f: Vec<&str> = x.split(':').collect();
+                        Some((f.first()? == &"true", f.get(1)?.parse().ok()?, f.get(2)?.parse().ok()?, f.get(3)?.parse().ok()?))
+                    })
+                    .collect();
+                do_world(log, st, a, b, &c);
+            }
+            ["ns", this] => {
+                if let Some(p) = probe.take() {
+                    p.shutdown();
+                }
+                probe = Some(NodeStateProbe::new(this).await);
+                map.clear();
+                log.rec(line, "ok");
+            }
+            _ => {
+                let Some(p) = probe.as_mut() else {
+                    log.rec(line, "no-state");
+                    continue;
+                };
+                match w.as_slice() {
+                    ["open", srv, old] => {
+                        let pid = p.open(*srv == "true").await;
+                        map.insert(old.parse().unwrap_or(0), pid);
+                        log.rec(format!("open {srv} {pid}"), "ok");
+                    }
+                    ["register", pid, peer, nonce] => {
+                        let pid = m(&map, pid);
+                        let r = p.register(pid, peer, nonce.parse().unwrap_or(0));
+                        log.rec(format!("register {pid} {peer} {nonce}"), r.to_string());
+                    }
+                    ["checkc", pid] => {
+                        let pid = m(&map, pid);
+                        log.rec(format!("checkc {pid}"), p.check_candidate(pid));
+                    }
+                    ["checks", peer, nonce] => {
+                        log.rec(line, p.check_session(peer, nonce.parse().unwrap_or(0)));
+                    }
+                    ["commit", pid] => {
+                        let pid = m(&map, pid);
+                        let obs = match p.commit(pid) {
+                            None => "none".to_string(),
+                            Some((s, mut l)) => {
+                                l.sort_unstable();
+                                format!("{s} {}", show_u64s(&l))
+                            }
+                        };
+                        log.rec(format!("commit {pid}"), obs);
+                    }
+                    ["elected", pid] => {
+                        let pid = m(&map, pid);
+                        log.rec(format!("elected {pid}"), p.is_elected(pid).to_string());
+                    }
+                    ["close", pid] => {
+                        let pid = m(&map, pid);
+                        p.close(pid);
+                        log.rec(format!("close {pid}"), "ok");
+                    }
+                    ["visible"] => log.rec("visible", show_u64s(&p.visible())),
+                    _ => log.rec(line, "unsupported-in-replay"),
+                }
+            }
+        }
+    }
+    if let Some(p) = probe.take() {
+        p.shutdown();
+    }
+}
+
 #[tokio::main(flavor = "current_thread")]
 async fn main() {
     let args = Args::parse();
@@ -331,6 +431,17 @@ async fn main() {
     let mut rng = Rng::new(seed);
     let mut log = Log::create(std::path::Path::new(&out)).unwrap();
     let mut st = Stats::default();
+
+    // corpus / replay files first: `--replay-ops f1,f2,…`; with `--only-replay 1` nothing else runs
+    for f in args.str("replay-ops", "").split(',').filter(|f| !f.is_empty()) {
+        replay_ops(&mut log, &mut st, f).await;
+    }
+    if args.u64("only-replay", 0) == 1 {
+        st.add("lines", log.lines);
+        st.write_json(&std::path::Path::new(&out).join("stats.json"));
+        log.finish();
+        return;
+    }
 
     // corpus-style fixed cases first (the repo's own unit-test vectors)
     do_elect(&mut log, &mut st, "a@host", "b@host", &[(2, true, 7), (1, false, 19)]);
